@@ -216,7 +216,7 @@ func repoFrame() string {
 }
 
 // stepFuel bounds every guarded library call (a typical render needs 10^3..10^4 steps).
-const stepFuel = 4_000_000
+const stepFuel = 1_000_000
 
 // fuelOuts counts guarded calls stopped by the step fuel, guardMaxSteps is the most
 // steps any other guarded call used, both since the shard loop last reset them. A
